@@ -1043,13 +1043,13 @@ func callBuiltin(caller *frame, callpos token.Pos, fn *ssa.Builtin, args []value
 		if len(args) == 1 {
 			return args[0]
 		}
+		tElt := fn.Type().(*types.Signature).Params().At(0).Type().Underlying().(*types.Slice).Elem()
 		if isStr(args[1]) {
 			// append([]byte, ...string) []byte
-			arg0 := args[0].([]value)
-			return append(arg0, strToBytes(args[1])...)
+			return i.appendValues(args[0].([]value), strToBytes(args[1]), tElt)
 		}
 		// append([]T, ...[]T) []T
-		return append(args[0].([]value), args[1].([]value)...)
+		return i.appendValues(args[0].([]value), args[1].([]value), tElt)
 
 	case "copy": // copy([]T, []T) int or copy([]byte, string) int
 		src := args[1]
@@ -1188,6 +1188,36 @@ func callBuiltin(caller *frame, callpos token.Pos, fn *ssa.Builtin, args []value
 
 	case "ssa:deferstack":
 		return &caller.defers
+
+	// unsafe.{SliceData,StringData,String,Slice}: pointers to the first
+	// element are remembered together with their backing slice.
+	case "SliceData":
+		x := args[0].([]value)
+		if cap(x) == 0 {
+			return (*value)(nil)
+		}
+		x = x[:cap(x)]
+		return i.rememberData(x)
+	case "StringData":
+		if s, _ := strParts(args[0]); len(s) == 0 {
+			return (*value)(nil)
+		}
+		return i.rememberData(strToBytes(args[0]))
+	case "String":
+		n := int(i.intS(args[1], "unsafe.String length"))
+		if n == 0 {
+			return ""
+		}
+		back := i.dataOf(args[0])
+		return bytesToStr(back[:n])
+	case "Slice":
+		n := int(i.intS(args[1], "unsafe.Slice length"))
+		p := args[0].(*value)
+		if p == nil {
+			return []value(nil)
+		}
+		back := i.dataOf(p)
+		return back[:n:n]
 	}
 
 	panic("unknown built-in: " + fn.Name())
@@ -1257,7 +1287,7 @@ func (i *interpreter) conv(t_dst, t_src types.Type, x value) value {
 			if b, ok := ut.Elem().Underlying().(*types.Basic); ok {
 				switch b.Kind() {
 				case types.Byte:
-					return strToBytes(x)
+					return bytesWithCap(strToBytes(x))
 				case types.Rune:
 					var res []value
 					it := &stringIter{i: i, s: x}
@@ -1377,7 +1407,7 @@ func conv(t_dst, t_src types.Type, x value) value {
 					for _, b := range []byte(s) {
 						res = append(res, b)
 					}
-					return res
+					return bytesWithCap(res)
 				}
 			case *types.Basic:
 				if ut_dst.Kind() == types.String {
@@ -1640,4 +1670,92 @@ func fandbits[F floaty](x, y F) F {
 		*(*uint64)(unsafe.Pointer(&x)) &= *(*uint64)(unsafe.Pointer(&y))
 	}
 	return x
+}
+
+// Capacity model: slices created by conversions and grown by append get the
+// capacity the gc runtime would give them (size-class rounding, growslice),
+// because code that reslices beyond len observes it.
+
+var sizeClasses = []int64{0, 8, 16, 24, 32, 48, 64, 80, 96, 112, 128, 144, 160, 176, 192, 208, 224, 240, 256, 288, 320, 352, 384, 416, 448, 480, 512, 576, 640, 704, 768, 896, 1024, 1152, 1280, 1408, 1536, 1792, 2048, 2304, 2688, 3072, 3200, 3456, 4096, 4864, 5376, 6144, 6528, 6784, 6912, 8192, 9472, 9728, 10240, 10880, 12288, 13568, 14336, 16384, 18432, 19072, 20480, 21760, 24576, 27264, 28672, 32768}
+
+func roundupsize(n int64) int64 {
+	if n <= 32768 {
+		for _, c := range sizeClasses {
+			if c >= n {
+				return c
+			}
+		}
+	}
+	return (n + 8191) &^ 8191
+}
+
+// bytesWithCap builds a []byte value of the given contents with the capacity
+// of a fresh heap allocation.
+func bytesWithCap(elems []value) []value {
+	c := roundupsize(int64(len(elems)))
+	out := make([]value, len(elems), c)
+	copy(out, elems)
+	tail := out[len(elems):c]
+	for k := range tail {
+		tail[k] = byte(0)
+	}
+	return out
+}
+
+func (i *interpreter) appendValues(dst, src []value, tElt types.Type) []value {
+	if len(src) == 0 {
+		return dst
+	}
+	newLen := len(dst) + len(src)
+	if newLen <= cap(dst) {
+		return append(dst, src...)
+	}
+	oldCap := cap(dst)
+	newcap := oldCap
+	doublecap := newcap + newcap
+	if newLen > doublecap {
+		newcap = newLen
+	} else {
+		const threshold = 256
+		if oldCap < threshold {
+			newcap = doublecap
+		} else {
+			for newcap < newLen {
+				newcap += (newcap + 3*threshold) >> 2
+			}
+		}
+	}
+	esz := i.sizes.Sizeof(tElt)
+	if esz > 0 {
+		newcap = int(roundupsize(int64(newcap)*esz) / esz)
+	}
+	out := make([]value, newLen, newcap)
+	copy(out, dst)
+	copy(out[len(dst):], src)
+	tail := out[newLen:newcap]
+	for k := range tail {
+		tail[k] = zero(tElt)
+	}
+	return out
+}
+
+func (i *interpreter) rememberData(x []value) *value {
+	if i.unsafeData == nil {
+		i.unsafeData = map[*value][]value{}
+	}
+	p := &x[0]
+	i.unsafeData[p] = x
+	return p
+}
+
+func (i *interpreter) dataOf(p value) []value {
+	pv, ok := p.(*value)
+	if !ok || pv == nil {
+		panic(runtimePanic{"runtime error: invalid memory address or nil pointer dereference (unsafe data pointer)"})
+	}
+	back, ok := i.unsafeData[pv]
+	if !ok {
+		panic(engineErrorf("unsafe pointer of unknown provenance"))
+	}
+	return back
 }
